@@ -1043,6 +1043,25 @@ func discoveryOnlyPredicate(fn *ssa.Function, reg *Registry) bool {
 	if !okCmp {
 		return discoveryOnlyByContainsFunc(fn, disc)
 	}
+	// an empty batch is not a discovery: every return that can be true is `len(items) > 0` or lies under that test
+	for _, b := range fn.Blocks {
+		ret, ok := b.Instrs[len(b.Instrs)-1].(*ssa.Return)
+		if !ok || len(ret.Results) != 1 {
+			continue
+		}
+		if c, isC := ret.Results[0].(*ssa.Const); isC && c.Value != nil && c.Value.String() == "false" {
+			continue
+		}
+		okRet := lenPositiveCond(ret.Results[0], true)
+		for _, dc := range dominatingConds(b) {
+			if lenPositiveCond(dc.cond, dc.outcome) {
+				okRet = true
+			}
+		}
+		if !okRet {
+			return false
+		}
+	}
 	// no return of a possibly-true value inside the loop
 	for b := range loopBlocks {
 		if ret, ok := b.Instrs[len(b.Instrs)-1].(*ssa.Return); ok {
@@ -1102,6 +1121,16 @@ func discoveryOnlyByContainsFunc(fn *ssa.Function, disc int64) bool {
 	if k, ok := constIntVal(bo.Y); !ok || k != disc {
 		return false
 	}
+	// an empty batch is not a discovery: the ContainsFunc call is only reached when there is at least one item
+	nonEmpty := false
+	for _, dc := range dominatingConds(cf.Block()) {
+		if lenPositiveCond(dc.cond, dc.outcome) {
+			nonEmpty = true
+		}
+	}
+	if !nonEmpty {
+		return false
+	}
 	// returns of fn: false, or !ContainsFunc(...)
 	var okVal func(v ssa.Value, d int) bool
 	okVal = func(v ssa.Value, d int) bool {
@@ -1131,4 +1160,32 @@ func discoveryOnlyByContainsFunc(fn *ssa.Function, disc int64) bool {
 		}
 	}
 	return true
+}
+
+
+// lenPositive: cond/outcome (or the value itself when used as the returned boolean) states len(x) > 0 for a slice of
+// request batch items.
+func lenPositiveCond(cond ssa.Value, outcome bool) bool {
+	bo, ok := cond.(*ssa.BinOp)
+	if !ok {
+		return false
+	}
+	y, isLen := lenOperand(bo.X)
+	if !isLen {
+		return false
+	}
+	if sl, ok := y.Type().Underlying().(*types.Slice); !ok || typeName(sl.Elem()) != "RequestBatchItem" {
+		return false
+	}
+	k, ok := constIntVal(bo.Y)
+	if !ok {
+		return false
+	}
+	switch {
+	case bo.Op == token.GTR && k == 0, bo.Op == token.NEQ && k == 0, bo.Op == token.GEQ && k == 1:
+		return outcome
+	case bo.Op == token.EQL && k == 0, bo.Op == token.LSS && k == 1, bo.Op == token.LEQ && k == 0:
+		return !outcome
+	}
+	return false
 }
